@@ -1,39 +1,988 @@
-import PyseqmVerif.Properties.C16
 import Mathlib.Analysis.Matrix.Spectrum
 import Mathlib.Analysis.Matrix.PosDef
 import Mathlib.LinearAlgebra.Matrix.PosDef
 import Mathlib.LinearAlgebra.Matrix.NonsingularInverse
+import Mathlib.LinearAlgebra.Matrix.Charpoly.Basic
+import Mathlib.LinearAlgebra.FiniteDimensional.Lemmas
 import Mathlib.Algebra.Order.Chebyshev
+import Mathlib.Algebra.Order.Star.Real
+import Mathlib.Data.Complex.BigOperators
+import Mathlib.Order.Interval.Finset.Fin
 import Mathlib.Tactic.Linarith
 import Mathlib.Tactic.Ring
+import Mathlib.Tactic.Abel
+import Mathlib.Tactic.FieldSimp
+import Mathlib.Tactic.Positivity
 import Mathlib.Tactic.NormNum
+import Mathlib.Tactic.FinCases
+/-!
+# C16b — RPA vs CIS in general dimension, and the algebra of the code's RPA formulation
 
+Python: `seqm/seqm_functions/rpa.py` (`make_sqrt_mat`, `rpa_subspace_eig`, `calc_rpa_residue`).
+The code solves `(A−B)(A+B) Z = ω² Z` through the symmetrised product
+`H = (A−B)^{1/2} (A+B) (A−B)^{1/2}` (`make_sqrt_mat` = `V diag(√λ) Vᵀ`), takes `ω = √(eig H)`,
+reconstructs `X+Y = (A−B)^{1/2} e`, `X−Y = (A+B)(X+Y)/ω` and normalises `X·X − Y·Y = 1`.
+
+Setting: `A B : Matrix n n ℝ` symmetric (`n` any `Fintype`), `A+B` and `A−B` positive definite
+(stable reference).  CIS energies = eigenvalues of `A` (`IsCISEig`), RPA: `ω² ` eigenvalue of
+`(A−B)(A+B)` (`IsRPAEig`), coupled form `A X + B Y = ω X`, `B X + A Y = −ω Y` (`IsRPAPair`).
+
+Proved (all at full strength, nothing partial):
+* (1)  `rpa_lowest_le_cis_lowest` — there is a lowest RPA root `ω₁ > 0` (an eigenvalue, below every
+  other RPA root) with `ω₁² ≤ a² − (xᵀBx)² ≤ a²` and `ω₁ ≤ a` for EVERY unit CIS eigenpair `(a, x)`.
+  `rpa_lowest_variational` is the underlying bound `ω₁² (xᵀx)² ≤ (xᵀAx)² − (xᵀBx)²` for all `x`.
+* (1c) `rpa_le_cis_all_roots` — EVERY root: with both spectra sorted (Mathlib `eigenvalues₀`),
+  `√λ_k(H) ≤ λ_k(A)` for all `k`; `rpa_count_ge_cis_count` is the counting form,
+  `card_le_card_eigenvalues_le` the half of Courant–Fischer it rests on (not in Mathlib);
+  `symProd_charpoly` / `symProd_eigenvalue_isRPAEig`: the spectrum of `H` is the RPA spectrum.
+* (2)  `rpa_eigenvalues_positive`, `rpa_eigenvalues_real_pos` — every (complex) eigenvalue of
+  `(A−B)(A+B)` is real and positive (square-root-free `⟨u,v⟩_{A+B}` argument).
+* (3)  `rpa_reduces_to_cis_when_B_zero` — `B = 0`: `ω > 0` is an RPA root iff it is a CIS energy.
+* (4)  `rpa_pair_structure`, `rpa_pair_common_flip`, `rpa_norm_blind_to_X_flip`,
+  `flip_X_only_breaks_solution`, `flip_X_only_stable`, `rpa_pair_norm_pos`,
+  `rpa_code_amplitudes` — the coupled equations, what the code returns, and the sign-flip algebra:
+  flipping `X` alone keeps `X·X − Y·Y` but is a solution iff `B X = 0 ∧ B Y = 0`
+  (stable reference, `ω > 0`: iff additionally `Y = 0`).
+* `sqrtMat_mul_self`, `sqrtMat_isSymm` — `make_sqrt_mat` returns a symmetric square root.
+-/
 namespace C16b
 
 open Matrix
-open scoped RealInnerProductSpace
 
-variable {n : Type*} [Fintype n] [DecidableEq n]
+theorem isHermitian_of_isSymm {n : Type*} {P : Matrix n n ℝ} (hP : P.IsSymm) :
+    P.IsHermitian := by
+  rw [Matrix.IsHermitian, Matrix.conjTranspose_eq_transpose_of_trivial]; exact hP
+
+theorem isSymm_of_isHermitian {n : Type*} {P : Matrix n n ℝ} (hP : P.IsHermitian) :
+    P.IsSymm := by
+  rw [Matrix.IsHermitian, Matrix.conjTranspose_eq_transpose_of_trivial] at hP; exact hP
+
+/-! ## algebra that needs no spectral theory -/
+section algebra
+variable {n : Type*} [Fintype n]
 
 /-- a symmetric real matrix moves across the dot product -/
 theorem dot_mulVec_symm (P : Matrix n n ℝ) (hP : P.IsSymm) (u v : n → ℝ) :
     u ⬝ᵥ P *ᵥ v = (P *ᵥ u) ⬝ᵥ v := by
   rw [Matrix.dotProduct_mulVec, ← Matrix.mulVec_transpose, hP.eq]
 
-theorem isHermitian_of_isSymm {P : Matrix n n ℝ} (hP : P.IsSymm) : P.IsHermitian := by
-  rw [Matrix.IsHermitian, Matrix.conjTranspose_eq_transpose_of_trivial]; exact hP
+theorem dot_self_pos {v : n → ℝ} (hv : v ≠ 0) : 0 < v ⬝ᵥ v := by
+  have h := Matrix.dotProduct_star_self_pos_iff.mpr hv
+  rwa [star_trivial] at h
 
+/-- Cauchy–Schwarz for the dot product -/
+theorem dot_sq_le (u v : n → ℝ) : (u ⬝ᵥ v) ^ 2 ≤ (u ⬝ᵥ u) * (v ⬝ᵥ v) := by
+  have := Finset.sum_mul_sq_le_sq_mul_sq Finset.univ u v
+  simpa only [dotProduct, sq] using this
+
+theorem quad_add (A B : Matrix n n ℝ) (x : n → ℝ) :
+    x ⬝ᵥ (A + B) *ᵥ x = x ⬝ᵥ A *ᵥ x + x ⬝ᵥ B *ᵥ x := by
+  rw [add_mulVec, dotProduct_add]
+
+theorem quad_sub (A B : Matrix n n ℝ) (x : n → ℝ) :
+    x ⬝ᵥ (A - B) *ᵥ x = x ⬝ᵥ A *ᵥ x - x ⬝ᵥ B *ᵥ x := by
+  rw [sub_mulVec, dotProduct_sub]
+
+theorem norm_eq_sum_dot_diff (X Y : n → ℝ) : X ⬝ᵥ X - Y ⬝ᵥ Y = (X + Y) ⬝ᵥ (X - Y) := by
+  rw [add_dotProduct, dotProduct_sub, dotProduct_sub, dotProduct_comm Y X]; ring
+
+theorem posDef_dot_pos {P : Matrix n n ℝ} (hP : P.PosDef) {x : n → ℝ} (hx : x ≠ 0) :
+    0 < x ⬝ᵥ P *ᵥ x := by
+  have := hP.dotProduct_mulVec_pos hx
+  rwa [star_trivial] at this
+
+theorem posDef_dot_nonneg {P : Matrix n n ℝ} (hP : P.PosDef) (x : n → ℝ) :
+    0 ≤ x ⬝ᵥ P *ᵥ x := by
+  by_cases hx : x = 0
+  · rw [hx, zero_dotProduct]
+  · exact (posDef_dot_pos hP hx).le
+
+theorem posDef_mulVec_ne_zero {P : Matrix n n ℝ} (hP : P.PosDef) {x : n → ℝ} (hx : x ≠ 0) :
+    P *ᵥ x ≠ 0 := by
+  intro h
+  have := posDef_dot_pos hP hx
+  rw [h, dotProduct_zero] at this
+  exact lt_irrefl _ this
+
+/-- `μ` is an eigenvalue of the RPA product matrix `(A−B)(A+B)` (`μ = ω²`) -/
+def IsRPAEig (A B : Matrix n n ℝ) (μ : ℝ) : Prop :=
+  ∃ z : n → ℝ, z ≠ 0 ∧ ((A - B) * (A + B)) *ᵥ z = μ • z
+
+/-- `a` is a CIS excitation energy: an eigenvalue of `A` -/
+def IsCISEig (A : Matrix n n ℝ) (a : ℝ) : Prop := ∃ x : n → ℝ, x ≠ 0 ∧ A *ᵥ x = a • x
+
+/-- the TDHF/RPA equations as written in `calc_rpa_residue`:
+    `A X + B Y = ω X`, `B X + A Y = −ω Y` -/
+def IsRPAPair (A B : Matrix n n ℝ) (w : ℝ) (X Y : n → ℝ) : Prop :=
+  A *ᵥ X + B *ᵥ Y = w • X ∧ B *ᵥ X + A *ᵥ Y = -(w • Y)
+
+/-- under the stability hypotheses `A = ((A+B) + (A−B))/2` is positive definite as a form -/
+theorem cis_form_pos (A B : Matrix n n ℝ) (hK : (A + B).PosDef) (hM : (A - B).PosDef)
+    {x : n → ℝ} (hx : x ≠ 0) : 0 < x ⬝ᵥ A *ᵥ x := by
+  have h1 := posDef_dot_pos hK hx
+  have h2 := posDef_dot_pos hM hx
+  rw [quad_add] at h1
+  rw [quad_sub] at h2
+  linarith
+
+/-- every CIS energy is positive under the stability hypotheses -/
+theorem cis_eigenvalue_pos (A B : Matrix n n ℝ) (hK : (A + B).PosDef) (hM : (A - B).PosDef)
+    (a : ℝ) (h : IsCISEig A a) : 0 < a := by
+  obtain ⟨x, hx, hax⟩ := h
+  have h1 := cis_form_pos A B hK hM hx
+  rw [hax, dotProduct_smul, smul_eq_mul] at h1
+  exact (mul_pos_iff_of_pos_right (dot_self_pos hx)).mp h1
+
+/-! ### (2) positivity / reality of the RPA spectrum (no square root needed) -/
+
+/-- `(A−B)(A+B)` is self-adjoint for the inner product `⟨u,v⟩ = uᵀ(A+B)v` -/
+theorem rpa_product_selfadjoint (A B : Matrix n n ℝ) (hA : A.IsSymm) (hB : B.IsSymm)
+    (u v : n → ℝ) :
+    (((A - B) * (A + B)) *ᵥ u) ⬝ᵥ (A + B) *ᵥ v =
+      u ⬝ᵥ (A + B) *ᵥ (((A - B) * (A + B)) *ᵥ v) := by
+  have hK : (A + B).IsSymm := hA.add hB
+  have hM : (A - B).IsSymm := hA.sub hB
+  rw [← mulVec_mulVec, ← mulVec_mulVec, ← dot_mulVec_symm _ hM, dot_mulVec_symm _ hK u]
+
+/-- the `⟨·,·⟩_{A+B}` Rayleigh numerator of the RPA product is the `(A−B)`-form of `(A+B)u` -/
+theorem rpa_product_form (A B : Matrix n n ℝ) (hA : A.IsSymm) (hB : B.IsSymm) (u v : n → ℝ) :
+    (((A - B) * (A + B)) *ᵥ u) ⬝ᵥ (A + B) *ᵥ v =
+      ((A + B) *ᵥ u) ⬝ᵥ (A - B) *ᵥ ((A + B) *ᵥ v) := by
+  have hM : (A - B).IsSymm := hA.sub hB
+  rw [← mulVec_mulVec, ← dot_mulVec_symm _ hM]
+
+/-- **C16b (2)** every real eigenvalue `ω²` of `(A−B)(A+B)` is positive. -/
+theorem rpa_eigenvalues_positive (A B : Matrix n n ℝ) (hA : A.IsSymm) (hB : B.IsSymm)
+    (hK : (A + B).PosDef) (hM : (A - B).PosDef) (mu : ℝ) (h : IsRPAEig A B mu) : 0 < mu := by
+  obtain ⟨z, hz, hmu⟩ := h
+  have h1 := rpa_product_form A B hA hB z z
+  rw [hmu, smul_dotProduct, smul_eq_mul] at h1
+  have h2 := posDef_dot_pos hM (posDef_mulVec_ne_zero hK hz)
+  have h3 := posDef_dot_pos hK hz
+  rw [← h1] at h2
+  exact (mul_pos_iff_of_pos_right h3).mp h2
+
+/-- **C16b (2), reality** in real/imaginary parts: a complex eigenpair `z = p + i q`,
+    `μ = α + i β` of the real matrix `T = (A−B)(A+B)` reads `T p = α p − β q`, `T q = β p + α q`.
+    Then `β = 0` and `α > 0`. -/
+theorem rpa_eigenvalues_real_pair (A B : Matrix n n ℝ) (hA : A.IsSymm) (hB : B.IsSymm)
+    (hK : (A + B).PosDef) (hM : (A - B).PosDef) (al be : ℝ) (p q : n → ℝ)
+    (hpq : p ≠ 0 ∨ q ≠ 0)
+    (hp : ((A - B) * (A + B)) *ᵥ p = al • p - be • q)
+    (hq : ((A - B) * (A + B)) *ᵥ q = be • p + al • q) : be = 0 ∧ 0 < al := by
+  have hsum : 0 < p ⬝ᵥ (A + B) *ᵥ p + q ⬝ᵥ (A + B) *ᵥ q := by
+    have hpp := posDef_dot_nonneg hK p
+    have hqq := posDef_dot_nonneg hK q
+    rcases hpq with h | h
+    · have := posDef_dot_pos hK h; linarith
+    · have := posDef_dot_pos hK h; linarith
+  -- self-adjointness gives β = 0
+  have hsa := rpa_product_selfadjoint A B hA hB p q
+  rw [hp, hq, sub_dotProduct, smul_dotProduct, smul_dotProduct, mulVec_add, dotProduct_add,
+    mulVec_smul, mulVec_smul, dotProduct_smul, dotProduct_smul] at hsa
+  simp only [smul_eq_mul] at hsa
+  have hbe : be = 0 := by
+    have : be * (p ⬝ᵥ (A + B) *ᵥ p + q ⬝ᵥ (A + B) *ᵥ q) = 0 := by linarith
+    rcases mul_eq_zero.mp this with h | h
+    · exact h
+    · exact absurd h hsum.ne'
+  refine ⟨hbe, ?_⟩
+  -- positivity of α
+  have hfp := rpa_product_form A B hA hB p p
+  have hfq := rpa_product_form A B hA hB q q
+  rw [hp, hbe, zero_smul, sub_zero, smul_dotProduct, smul_eq_mul] at hfp
+  rw [hq, hbe, zero_smul, zero_add, smul_dotProduct, smul_eq_mul] at hfq
+  have hg : 0 < ((A + B) *ᵥ p) ⬝ᵥ (A - B) *ᵥ ((A + B) *ᵥ p) +
+      ((A + B) *ᵥ q) ⬝ᵥ (A - B) *ᵥ ((A + B) *ᵥ q) := by
+    have hgp := posDef_dot_nonneg hM ((A + B) *ᵥ p)
+    have hgq := posDef_dot_nonneg hM ((A + B) *ᵥ q)
+    rcases hpq with h | h
+    · have := posDef_dot_pos hM (posDef_mulVec_ne_zero hK h); linarith
+    · have := posDef_dot_pos hM (posDef_mulVec_ne_zero hK h); linarith
+  have : 0 < al * (p ⬝ᵥ (A + B) *ᵥ p + q ⬝ᵥ (A + B) *ᵥ q) := by
+    rw [mul_add, hfp, hfq]; exact hg
+  exact (mul_pos_iff_of_pos_right hsum).mp this
+
+theorem map_ofReal_mulVec_re (T : Matrix n n ℝ) (z : n → ℂ) :
+    (fun i => ((T.map Complex.ofReal *ᵥ z) i).re) = T *ᵥ (fun i => (z i).re) := by
+  funext i
+  simp only [mulVec, dotProduct, Matrix.map_apply, Complex.re_sum, Complex.re_ofReal_mul]
+
+theorem map_ofReal_mulVec_im (T : Matrix n n ℝ) (z : n → ℂ) :
+    (fun i => ((T.map Complex.ofReal *ᵥ z) i).im) = T *ᵥ (fun i => (z i).im) := by
+  funext i
+  simp only [mulVec, dotProduct, Matrix.map_apply, Complex.im_sum, Complex.im_ofReal_mul]
+
+/-- **C16b (2), reality**: every complex eigenvalue of the real matrix `(A−B)(A+B)` is real and
+    positive, so `ω = √(ω²)` is well defined for every RPA root. -/
+theorem rpa_eigenvalues_real_pos (A B : Matrix n n ℝ) (hA : A.IsSymm) (hB : B.IsSymm)
+    (hK : (A + B).PosDef) (hM : (A - B).PosDef) (mu : ℂ) (z : n → ℂ) (hz : z ≠ 0)
+    (h : (((A - B) * (A + B)).map Complex.ofReal) *ᵥ z = mu • z) : mu.im = 0 ∧ 0 < mu.re := by
+  have hre := map_ofReal_mulVec_re ((A - B) * (A + B)) z
+  have him := map_ofReal_mulVec_im ((A - B) * (A + B)) z
+  rw [h] at hre him
+  refine rpa_eigenvalues_real_pair A B hA hB hK hM mu.re mu.im (fun i => (z i).re)
+    (fun i => (z i).im) ?_ ?_ ?_
+  · by_contra hcon
+    push Not at hcon
+    apply hz
+    funext i
+    exact Complex.ext (congrFun hcon.1 i) (congrFun hcon.2 i)
+  · rw [← hre]; funext i
+    simp only [Pi.smul_apply, smul_eq_mul, Complex.mul_re, Pi.sub_apply]
+  · rw [← him]; funext i
+    simp only [Pi.smul_apply, smul_eq_mul, Complex.mul_im, Pi.add_apply]
+    ring
+
+/-! ### (3) Tamm–Dancoff limit `B = 0` -/
+
+/-- **C16b (3a)**: for `B = 0` the square of every CIS energy is an RPA eigenvalue
+    (`A² x = a² x`), no hypothesis on `A` needed. -/
+theorem rpa_of_cis_when_B_zero (A : Matrix n n ℝ) (a : ℝ) (h : IsCISEig A a) :
+    IsRPAEig A 0 (a ^ 2) := by
+  obtain ⟨x, hx, hax⟩ := h
+  refine ⟨x, hx, ?_⟩
+  rw [sub_zero, add_zero, ← mulVec_mulVec, hax, mulVec_smul, hax, smul_smul, sq]
+
+/-- **C16b (3)**: for `B = 0` and `A` positive definite the RPA excitation energies are exactly the
+    CIS ones: `ω > 0` solves `A² z = ω² z` for some `z ≠ 0` iff `ω` is an eigenvalue of `A`. -/
+theorem rpa_reduces_to_cis_when_B_zero (A : Matrix n n ℝ) (hA : A.PosDef) (w : ℝ) (hw : 0 < w) :
+    IsRPAEig A 0 (w ^ 2) ↔ IsCISEig A w := by
+  constructor
+  · rintro ⟨z, hz, h⟩
+    rw [sub_zero, add_zero, ← mulVec_mulVec] at h
+    refine ⟨A *ᵥ z + w • z, ?_, ?_⟩
+    · intro h0
+      have h1 : A *ᵥ z = -(w • z) := eq_neg_of_add_eq_zero_left h0
+      have h2 := posDef_dot_pos hA hz
+      rw [h1, dotProduct_neg, dotProduct_smul, smul_eq_mul] at h2
+      have := mul_pos hw (dot_self_pos hz)
+      linarith
+    · rw [mulVec_add, h, mulVec_smul, smul_add, smul_smul, sq, add_comm]
+  · exact rpa_of_cis_when_B_zero A w
+
+/-! ### (4) the coupled `(X, Y)` equations -/
+
+theorem rpa_pair_sum (A B : Matrix n n ℝ) (w : ℝ) (X Y : n → ℝ) (h : IsRPAPair A B w X Y) :
+    (A + B) *ᵥ (X + Y) = w • (X - Y) := by
+  obtain ⟨h1, h2⟩ := h
+  rw [add_mulVec, mulVec_add, mulVec_add, smul_sub]
+  calc A *ᵥ X + A *ᵥ Y + (B *ᵥ X + B *ᵥ Y)
+      = (A *ᵥ X + B *ᵥ Y) + (B *ᵥ X + A *ᵥ Y) := by abel
+    _ = w • X - w • Y := by rw [h1, h2]; abel
+
+theorem rpa_pair_diff (A B : Matrix n n ℝ) (w : ℝ) (X Y : n → ℝ) (h : IsRPAPair A B w X Y) :
+    (A - B) *ᵥ (X - Y) = w • (X + Y) := by
+  obtain ⟨h1, h2⟩ := h
+  rw [sub_mulVec, mulVec_sub, mulVec_sub, smul_add]
+  calc A *ᵥ X - A *ᵥ Y - (B *ᵥ X - B *ᵥ Y)
+      = (A *ᵥ X + B *ᵥ Y) - (B *ᵥ X + A *ᵥ Y) := by abel
+    _ = w • X + w • Y := by rw [h1, h2]; abel
+
+/-- **C16b (4a)**: a solution `(X, Y)` of the coupled equations gives the eigenvector `Z = X + Y`
+    of the product form `(A−B)(A+B) Z = ω² Z` the code solves, and `(Y, X)` solves the coupled
+    equations with `−ω` (the de-excitation partner). -/
+theorem rpa_pair_structure (A B : Matrix n n ℝ) (w : ℝ) (X Y : n → ℝ)
+    (h : IsRPAPair A B w X Y) :
+    ((A - B) * (A + B)) *ᵥ (X + Y) = w ^ 2 • (X + Y) ∧ IsRPAPair A B (-w) Y X := by
+  refine ⟨?_, ?_, ?_⟩
+  · rw [← mulVec_mulVec, rpa_pair_sum A B w X Y h, mulVec_smul, rpa_pair_diff A B w X Y h,
+      smul_smul, sq]
+  · rw [add_comm, h.2, neg_smul]
+  · rw [add_comm, h.1, neg_smul, neg_neg]
+
+/-- conversely (the code's reconstruction): from `K p = ω m`, `M m = ω p` (`p = X+Y`, `m = X−Y`)
+    the pair `X = p + m`, `Y = p − m` solves the coupled equations -/
+theorem rpa_pair_of_sum_diff (A B : Matrix n n ℝ) (w : ℝ) (p m : n → ℝ)
+    (hK : (A + B) *ᵥ p = w • m) (hM : (A - B) *ᵥ m = w • p) :
+    IsRPAPair A B w (p + m) (p - m) := by
+  rw [add_mulVec] at hK
+  rw [sub_mulVec] at hM
+  constructor
+  · rw [mulVec_add, mulVec_sub, smul_add, ← hK, ← hM]; abel
+  · rw [mulVec_add, mulVec_sub, smul_sub, ← hK, ← hM]; abel
+
+/-- **C16b (4b)**: a common sign flip of `(X, Y)` keeps both the equations and the
+    normalisation `X·X − Y·Y`. -/
+theorem rpa_pair_common_flip (A B : Matrix n n ℝ) (w : ℝ) (X Y : n → ℝ)
+    (h : IsRPAPair A B w X Y) :
+    IsRPAPair A B w (-X) (-Y) ∧ (-X) ⬝ᵥ (-X) - (-Y) ⬝ᵥ (-Y) = X ⬝ᵥ X - Y ⬝ᵥ Y := by
+  refine ⟨⟨?_, ?_⟩, ?_⟩
+  · rw [mulVec_neg, mulVec_neg, ← neg_add, h.1, smul_neg]
+  · rw [mulVec_neg, mulVec_neg, ← neg_add, h.2, smul_neg]
+  · rw [neg_dotProduct_neg, neg_dotProduct_neg]
+
+/-- the normalisation alone cannot see an `X`-only flip: `X·X − Y·Y` is unchanged -/
+theorem rpa_norm_blind_to_X_flip (X Y : n → ℝ) :
+    (-X) ⬝ᵥ (-X) - Y ⬝ᵥ Y = X ⬝ᵥ X - Y ⬝ᵥ Y := by
+  rw [neg_dotProduct_neg]
+
+/-- **C16b (4c)** *flipping the sign of the `X` block only*: if `(X, Y)` solves the coupled
+    equations then `(−X, Y)` solves them for the same `ω` **iff** `B X = 0 ∧ B Y = 0`
+    (and then `A X = ω X`, `A Y = −ω Y`: the two blocks are uncoupled). -/
+theorem flip_X_only_breaks_solution (A B : Matrix n n ℝ) (w : ℝ) (X Y : n → ℝ)
+    (h : IsRPAPair A B w X Y) :
+    IsRPAPair A B w (-X) Y ↔ (B *ᵥ X = 0 ∧ B *ᵥ Y = 0) := by
+  obtain ⟨h1, h2⟩ := h
+  constructor
+  · rintro ⟨h3, h4⟩
+    rw [mulVec_neg, smul_neg] at h3
+    rw [mulVec_neg] at h4
+    constructor
+    · have : (2 : ℝ) • (B *ᵥ X) = 0 := by
+        rw [two_smul]
+        calc B *ᵥ X + B *ᵥ X = (B *ᵥ X + A *ᵥ Y) - (-(B *ᵥ X) + A *ᵥ Y) := by abel
+          _ = 0 := by rw [h2, h4, sub_self]
+      exact (smul_eq_zero.mp this).resolve_left (by norm_num)
+    · have : (2 : ℝ) • (B *ᵥ Y) = 0 := by
+        rw [two_smul]
+        calc B *ᵥ Y + B *ᵥ Y = (A *ᵥ X + B *ᵥ Y) + (-(A *ᵥ X) + B *ᵥ Y) := by abel
+          _ = 0 := by rw [h1, h3]; abel
+      exact (smul_eq_zero.mp this).resolve_left (by norm_num)
+  · rintro ⟨hX, hY⟩
+    rw [hY, add_zero] at h1
+    rw [hX, zero_add] at h2
+    constructor
+    · rw [mulVec_neg, hY, add_zero, h1, smul_neg]
+    · rw [mulVec_neg, hX, neg_zero, zero_add, h2]
+
+/-- **C16b (4d)** under the stability hypotheses and `ω > 0` the degenerate case forces `Y = 0`:
+    an `X`-only flipped pair is again a solution only for a pure CIS state that `B` does not
+    couple (`Y = 0`, `B X = 0`, `A X = ω X`).  Any state with a genuine de-excitation component
+    `Y ≠ 0` is destroyed by the flip. -/
+theorem flip_X_only_stable (A B : Matrix n n ℝ) (hK : (A + B).PosDef) (hM : (A - B).PosDef)
+    (w : ℝ) (hw : 0 < w) (X Y : n → ℝ) (h : IsRPAPair A B w X Y)
+    (hflip : IsRPAPair A B w (-X) Y) : Y = 0 ∧ B *ᵥ X = 0 ∧ A *ᵥ X = w • X := by
+  obtain ⟨hX, hY⟩ := (flip_X_only_breaks_solution A B w X Y h).mp hflip
+  obtain ⟨h1, h2⟩ := h
+  rw [hY, add_zero] at h1
+  rw [hX, zero_add] at h2
+  refine ⟨?_, hX, h1⟩
+  by_contra hne
+  have h3 := cis_form_pos A B hK hM hne
+  rw [h2, dotProduct_neg, dotProduct_smul, smul_eq_mul] at h3
+  have := mul_pos hw (dot_self_pos hne)
+  linarith
+
+/-- **C16b (4e)**: for a non-trivial solution with `ω > 0` of a stable reference the radicand of
+    the code's normalisation `XYnorm = sqrt(X·X − Y·Y)` is positive. -/
+theorem rpa_pair_norm_pos (A B : Matrix n n ℝ) (hK : (A + B).PosDef) (w : ℝ) (hw : 0 < w)
+    (X Y : n → ℝ) (h : IsRPAPair A B w X Y) (hXY : X ≠ 0 ∨ Y ≠ 0) : 0 < X ⬝ᵥ X - Y ⬝ᵥ Y := by
+  have hs := rpa_pair_sum A B w X Y h
+  have hne : X + Y ≠ 0 := by
+    intro h0
+    rw [h0, mulVec_zero] at hs
+    have hd : X - Y = 0 := (smul_eq_zero.mp hs.symm).resolve_left hw.ne'
+    have hXeq : X = Y := sub_eq_zero.mp hd
+    rw [hXeq] at h0
+    have hY : Y = 0 := by
+      have : (2 : ℝ) • Y = 0 := by rw [two_smul]; exact h0
+      exact (smul_eq_zero.mp this).resolve_left (by norm_num)
+    rcases hXY with h' | h'
+    · exact h' (hXeq.trans hY)
+    · exact h' hY
+  have hpos := posDef_dot_pos hK hne
+  rw [hs, dotProduct_smul, smul_eq_mul, ← norm_eq_sum_dot_diff] at hpos
+  exact (mul_pos_iff_of_pos_left hw).mp hpos
+
+end algebra
+
+/-! ## spectral part -/
+section spectral
+variable {n : Type*} [Fintype n] [DecidableEq n]
+
+/-! ### eigenbasis expansions for a real symmetric matrix (in `⬝ᵥ` language) -/
+
+theorem eigenbasis_expansion {H : Matrix n n ℝ} (hH : H.IsHermitian) (v w : n → ℝ) :
+    v ⬝ᵥ w = ∑ i, (⇑(hH.eigenvectorBasis i) ⬝ᵥ v) * (⇑(hH.eigenvectorBasis i) ⬝ᵥ w) := by
+  have := hH.eigenvectorBasis.sum_inner_mul_inner (WithLp.toLp 2 v) (WithLp.toLp 2 w)
+  simp only [EuclideanSpace.inner_eq_star_dotProduct, star_trivial] at this
+  rw [dotProduct_comm v w, ← this]
+  refine Finset.sum_congr rfl fun i _ => ?_
+  rw [dotProduct_comm w]
+
+theorem eigenbasis_norm {H : Matrix n n ℝ} (hH : H.IsHermitian) (v : n → ℝ) :
+    v ⬝ᵥ v = ∑ i, (⇑(hH.eigenvectorBasis i) ⬝ᵥ v) ^ 2 := by
+  rw [eigenbasis_expansion hH v v]
+  exact Finset.sum_congr rfl fun i _ => (sq _).symm
+
+theorem eigenbasis_quad {H : Matrix n n ℝ} (hH : H.IsHermitian) (v : n → ℝ) :
+    v ⬝ᵥ H *ᵥ v = ∑ i, hH.eigenvalues i * (⇑(hH.eigenvectorBasis i) ⬝ᵥ v) ^ 2 := by
+  rw [eigenbasis_expansion hH v (H *ᵥ v)]
+  refine Finset.sum_congr rfl fun i _ => ?_
+  rw [dot_mulVec_symm H (isSymm_of_isHermitian hH) _ v, hH.mulVec_eigenvectorBasis i,
+    smul_dotProduct, smul_eq_mul]
+  ring
+
+theorem eigenbasis_orthonormal {H : Matrix n n ℝ} (hH : H.IsHermitian) (i k : n) :
+    ⇑(hH.eigenvectorBasis i) ⬝ᵥ ⇑(hH.eigenvectorBasis k) = if i = k then 1 else 0 := by
+  have := orthonormal_iff_ite.mp hH.eigenvectorBasis.orthonormal k i
+  simp only [EuclideanSpace.inner_eq_star_dotProduct, star_trivial] at this
+  rw [this]
+  simp only [eq_comm]
+
+theorem eigenbasis_ne_zero {H : Matrix n n ℝ} (hH : H.IsHermitian) (i : n) :
+    (⇑(hH.eigenvectorBasis i) : n → ℝ) ≠ 0 := by
+  intro h
+  have := eigenbasis_orthonormal hH i i
+  rw [h, zero_dotProduct, if_pos rfl] at this
+  exact zero_ne_one this
+
+/-- if `v` has no component along eigenvectors with eigenvalue `> c` then `vᵀHv ≤ c vᵀv` -/
+theorem quad_le_of_orth {H : Matrix n n ℝ} (hH : H.IsHermitian) (c : ℝ) (v : n → ℝ)
+    (horth : ∀ i, c < hH.eigenvalues i → ⇑(hH.eigenvectorBasis i) ⬝ᵥ v = 0) :
+    v ⬝ᵥ H *ᵥ v ≤ c * (v ⬝ᵥ v) := by
+  rw [eigenbasis_quad hH, eigenbasis_norm hH, Finset.mul_sum]
+  refine Finset.sum_le_sum fun i _ => ?_
+  by_cases h : c < hH.eigenvalues i
+  · rw [horth i h]; simp
+  · exact mul_le_mul_of_nonneg_right (not_lt.mp h) (sq_nonneg _)
+
+/-- if `v ≠ 0` has no component along eigenvectors with eigenvalue `≤ θ` then `θ vᵀv < vᵀHv` -/
+theorem lt_quad_of_orth {H : Matrix n n ℝ} (hH : H.IsHermitian) (θ : ℝ) (v : n → ℝ) (hv : v ≠ 0)
+    (horth : ∀ i, hH.eigenvalues i ≤ θ → ⇑(hH.eigenvectorBasis i) ⬝ᵥ v = 0) :
+    θ * (v ⬝ᵥ v) < v ⬝ᵥ H *ᵥ v := by
+  have hpos := dot_self_pos hv
+  obtain ⟨k, hk⟩ : ∃ k, ⇑(hH.eigenvectorBasis k) ⬝ᵥ v ≠ 0 := by
+    by_contra hall
+    push Not at hall
+    rw [eigenbasis_norm hH] at hpos
+    simp [hall] at hpos
+  rw [eigenbasis_quad hH, eigenbasis_norm hH, Finset.mul_sum]
+  refine Finset.sum_lt_sum (fun i _ => ?_) ⟨k, Finset.mem_univ k, ?_⟩
+  · by_cases h : hH.eigenvalues i ≤ θ
+    · rw [horth i h]; simp
+    · exact mul_le_mul_of_nonneg_right (not_le.mp h).le (sq_nonneg _)
+  · have hlt : θ < hH.eigenvalues k := by
+      by_contra h
+      exact hk (horth k (not_lt.mp h))
+    exact mul_lt_mul_of_pos_right hlt (by positivity)
+
+/-- **min principle**: a real symmetric matrix has a smallest eigenpair `(λ, e)`, and
+    `λ uᵀu ≤ uᵀHu` for every `u`. -/
 theorem exists_min_eigenpair [Nonempty n] (H : Matrix n n ℝ) (hH : H.IsSymm) :
     ∃ (lam : ℝ) (e : n → ℝ), e ≠ 0 ∧ H *ᵥ e = lam • e ∧
       ∀ u : n → ℝ, lam * (u ⬝ᵥ u) ≤ u ⬝ᵥ H *ᵥ u := by
   have hH' := isHermitian_of_isSymm hH
   obtain ⟨i0, hi0⟩ := Finite.exists_min hH'.eigenvalues
-  set b := hH'.eigenvectorBasis with hb
-  refine ⟨hH'.eigenvalues i0, ⇑(b i0), ?_, hH'.mulVec_eigenvectorBasis i0, ?_⟩
-  · intro h0
-    have : ‖b i0‖ = 1 := b.orthonormal.1 i0
-    sorry
-  · intro u
-    sorry
+  refine ⟨hH'.eigenvalues i0, ⇑(hH'.eigenvectorBasis i0), eigenbasis_ne_zero hH' i0,
+    hH'.mulVec_eigenvectorBasis i0, fun u => ?_⟩
+  rw [eigenbasis_quad hH', eigenbasis_norm hH', Finset.mul_sum]
+  exact Finset.sum_le_sum fun i _ => mul_le_mul_of_nonneg_right (hi0 i) (sq_nonneg _)
+
+/-- **half of Courant–Fischer**: if every non-trivial combination `v = Σ αᵢ uᵢ` of a family
+    `u : ι → ℝⁿ` is non-zero and has Rayleigh quotient `vᵀHv ≤ θ vᵀv`, then the symmetric `H` has
+    at least `|ι|` eigenvalues `≤ θ` (with multiplicity). -/
+theorem card_le_card_eigenvalues_le {ι : Type*} [Fintype ι] {H : Matrix n n ℝ}
+    (hH : H.IsHermitian) (θ : ℝ) (u : ι → n → ℝ)
+    (hu : ∀ α : ι → ℝ, α ≠ 0 → (∑ i, α i • u i) ≠ 0 ∧
+      (∑ i, α i • u i) ⬝ᵥ H *ᵥ (∑ i, α i • u i) ≤ θ * ((∑ i, α i • u i) ⬝ᵥ (∑ i, α i • u i))) :
+    Fintype.card ι ≤ Fintype.card {j // hH.eigenvalues j ≤ θ} := by
+  by_contra hlt
+  push Not at hlt
+  let G : Matrix {j // hH.eigenvalues j ≤ θ} ι ℝ :=
+    Matrix.of fun j i => ⇑(hH.eigenvectorBasis j.1) ⬝ᵥ u i
+  have hker : LinearMap.ker G.mulVecLin ≠ ⊥ := by
+    apply LinearMap.ker_ne_bot_of_finrank_lt
+    rw [Module.finrank_fintype_fun_eq_card, Module.finrank_fintype_fun_eq_card]
+    exact hlt
+  obtain ⟨α, hαker, hα0⟩ := Submodule.exists_mem_ne_zero_of_ne_bot hker
+  have hG : G *ᵥ α = 0 := by
+    rw [LinearMap.mem_ker, Matrix.mulVecLin_apply] at hαker
+    exact hαker
+  obtain ⟨hv0, hvle⟩ := hu α hα0
+  have horth : ∀ j, hH.eigenvalues j ≤ θ →
+      ⇑(hH.eigenvectorBasis j) ⬝ᵥ (∑ i, α i • u i) = 0 := by
+    intro j hj
+    have h1 := congrFun hG ⟨j, hj⟩
+    rw [dotProduct_sum]
+    simp only [dotProduct_smul, smul_eq_mul]
+    simp only [mulVec, dotProduct, Matrix.of_apply, G, Pi.zero_apply] at h1 ⊢
+    rw [← h1]
+    exact Finset.sum_congr rfl fun i _ => mul_comm _ _
+  exact absurd (lt_quad_of_orth hH θ _ hv0 horth) (not_lt.mpr hvle)
+
+/-- coefficients of a combination of the eigenvectors with eigenvalue `≤ c` -/
+theorem eigen_comb_coeff {H : Matrix n n ℝ} (hH : H.IsHermitian) (c : ℝ)
+    (α : {i // hH.eigenvalues i ≤ c} → ℝ) (k : n) :
+    ⇑(hH.eigenvectorBasis k) ⬝ᵥ (∑ i, α i • (⇑(hH.eigenvectorBasis i.1) : n → ℝ)) =
+      if h : hH.eigenvalues k ≤ c then α ⟨k, h⟩ else 0 := by
+  rw [dotProduct_sum]
+  simp only [dotProduct_smul, smul_eq_mul, eigenbasis_orthonormal]
+  split_ifs with h
+  · rw [Finset.sum_eq_single ⟨k, h⟩]
+    · simp
+    · intro i _ hi
+      have : k ≠ i.1 := fun hk => hi (Subtype.ext hk.symm)
+      simp [this]
+    · intro h'; exact absurd (Finset.mem_univ _) h'
+  · refine Finset.sum_eq_zero fun i _ => ?_
+    have : k ≠ i.1 := fun hk => h (hk ▸ i.2)
+    simp [this]
+
+/-- two antitone sequences with the counting domination `#{g ≤ c} ≤ #{f ≤ c}` for all `c`
+    are ordered termwise: `f k ≤ g k` -/
+theorem antitone_le_of_count {N : ℕ} (f g : Fin N → ℝ) (hf : Antitone f) (hg : Antitone g)
+    (hcount : ∀ c, Fintype.card {i // g i ≤ c} ≤ Fintype.card {i // f i ≤ c}) (k : Fin N) :
+    f k ≤ g k := by
+  by_contra hlt
+  push Not at hlt
+  have h := hcount (g k)
+  rw [Fintype.card_subtype, Fintype.card_subtype] at h
+  have h1 : Finset.Ici k ⊆ Finset.univ.filter (fun i => g i ≤ g k) := by
+    intro i hi
+    rw [Finset.mem_Ici] at hi
+    exact Finset.mem_filter.mpr ⟨Finset.mem_univ _, hg hi⟩
+  have h2 : Finset.univ.filter (fun i => f i ≤ g k) ⊆ Finset.Ioi k := by
+    intro i hi
+    rw [Finset.mem_filter] at hi
+    rw [Finset.mem_Ioi]
+    by_contra hik
+    have := hf (not_lt.mp hik)
+    linarith [hi.2]
+  have h3 := Finset.card_le_card h1
+  have h4 := Finset.card_le_card h2
+  rw [Fin.card_Ici] at h3
+  rw [Fin.card_Ioi] at h4
+  have := k.2
+  omega
+
+theorem card_eigenvalues₀_le {H : Matrix n n ℝ} (hH : H.IsHermitian) (c : ℝ) :
+    Fintype.card {k // hH.eigenvalues₀ k ≤ c} = Fintype.card {i // hH.eigenvalues i ≤ c} := by
+  refine Fintype.card_congr
+    (Equiv.subtypeEquiv (Fintype.equivOfCardEq (Fintype.card_fin _)) fun k => ?_)
+  unfold Matrix.IsHermitian.eigenvalues
+  rw [Equiv.symm_apply_apply]
+
+/-! ### `make_sqrt_mat` -/
+
+/-- model of `make_sqrt_mat`: `eigenvectors @ diag(sqrt(eigenvalues)) @ eigenvectorsᵀ` -/
+noncomputable def sqrtMat (M : Matrix n n ℝ) (hM : M.IsHermitian) : Matrix n n ℝ :=
+  (hM.eigenvectorUnitary : Matrix n n ℝ) * diagonal (fun i => Real.sqrt (hM.eigenvalues i)) *
+    (hM.eigenvectorUnitary : Matrix n n ℝ)ᴴ
+
+theorem sqrtMat_isSymm (M : Matrix n n ℝ) (hM : M.IsHermitian) : (sqrtMat M hM).IsSymm := by
+  have h : (sqrtMat M hM).IsHermitian := by
+    unfold sqrtMat
+    exact isHermitian_mul_mul_conjTranspose _ (isHermitian_diagonal _)
+  exact isSymm_of_isHermitian h
+
+/-- when no eigenvalue is negative (otherwise the code raises) the result squares to `M` -/
+theorem sqrtMat_mul_self (M : Matrix n n ℝ) (hM : M.PosSemidef) :
+    sqrtMat M hM.1 * sqrtMat M hM.1 = M := by
+  have hU : (hM.1.eigenvectorUnitary : Matrix n n ℝ)ᴴ *
+      (hM.1.eigenvectorUnitary : Matrix n n ℝ) = 1 := by
+    rw [← star_eq_conjTranspose]; exact Unitary.coe_star_mul_self _
+  have hd : diagonal (fun i => Real.sqrt (hM.1.eigenvalues i)) *
+      diagonal (fun i => Real.sqrt (hM.1.eigenvalues i)) = diagonal hM.1.eigenvalues := by
+    rw [diagonal_mul_diagonal]
+    congr 1
+    funext i
+    exact Real.mul_self_sqrt (hM.eigenvalues_nonneg i)
+  conv_rhs => rw [hM.1.spectral_theorem, Unitary.conjStarAlgAut_apply]
+  unfold sqrtMat
+  set U := (hM.1.eigenvectorUnitary : Matrix n n ℝ)
+  set D := diagonal (fun i => Real.sqrt (hM.1.eigenvalues i))
+  calc U * D * Uᴴ * (U * D * Uᴴ) = U * D * (Uᴴ * U) * D * Uᴴ := by simp only [Matrix.mul_assoc]
+    _ = U * (D * D) * Uᴴ := by rw [hU, Matrix.mul_one, Matrix.mul_assoc U D D]
+    _ = _ := by
+      rw [hd, star_eq_conjTranspose]
+      rfl
+
+theorem sqrtMat_mulVec_mulVec (M : Matrix n n ℝ) (hM : M.PosSemidef) (v : n → ℝ) :
+    sqrtMat M hM.1 *ᵥ (sqrtMat M hM.1 *ᵥ v) = M *ᵥ v := by
+  rw [mulVec_mulVec, sqrtMat_mul_self M hM]
+
+theorem sqrtMat_injective (M : Matrix n n ℝ) (hM : M.PosDef) :
+    Function.Injective (sqrtMat M hM.1).mulVec := by
+  intro u v huv
+  by_contra hne
+  have hd : u - v ≠ 0 := sub_ne_zero.mpr hne
+  have h0 : sqrtMat M hM.1 *ᵥ (u - v) = 0 := by rw [mulVec_sub, huv, sub_self]
+  have h1 : M *ᵥ (u - v) = 0 := by
+    rw [← sqrtMat_mulVec_mulVec M hM.posSemidef, h0, mulVec_zero]
+  exact posDef_mulVec_ne_zero hM hd h1
+
+theorem sqrtMat_mulVec_ne_zero (M : Matrix n n ℝ) (hM : M.PosDef) {e : n → ℝ} (he : e ≠ 0) :
+    sqrtMat M hM.1 *ᵥ e ≠ 0 := by
+  intro h
+  apply he
+  apply sqrtMat_injective M hM
+  show sqrtMat M hM.1 *ᵥ e = sqrtMat M hM.1 *ᵥ 0
+  rw [h, mulVec_zero]
+
+theorem sqrtMat_surjective (M : Matrix n n ℝ) (hM : M.PosDef) (x : n → ℝ) :
+    ∃ u, sqrtMat M hM.1 *ᵥ u = x :=
+  (Matrix.mulVec_surjective_iff_isUnit.mpr
+    (Matrix.mulVec_injective_iff_isUnit.mp (sqrtMat_injective M hM))) x
+
+/-- Cauchy–Schwarz through the square root: `S u = x ⇒ (xᵀx)² ≤ (uᵀu)(xᵀMx)`
+    (i.e. `xᵀM⁻¹x ≥ (xᵀx)²/xᵀMx`) -/
+theorem sqrt_cauchy (M : Matrix n n ℝ) (hM : M.PosSemidef) (u x : n → ℝ)
+    (hu : sqrtMat M hM.1 *ᵥ u = x) : (x ⬝ᵥ x) ^ 2 ≤ (u ⬝ᵥ u) * (x ⬝ᵥ M *ᵥ x) := by
+  have hS := sqrtMat_isSymm M hM.1
+  have h2 := dot_sq_le u (sqrtMat M hM.1 *ᵥ x)
+  rw [dot_mulVec_symm _ hS, hu] at h2
+  rw [← sqrtMat_mulVec_mulVec M hM x, dot_mulVec_symm _ hS x]
+  exact h2
+
+/-! ### the symmetrised product of `rpa_subspace_eig` -/
+
+/-- the symmetrised product the code diagonalises (`H = AmB_sqrt @ ApB @ AmB_sqrt`):
+    `H = (A−B)^{1/2} (A+B) (A−B)^{1/2}` -/
+noncomputable def symProd (A B : Matrix n n ℝ) (hM : (A - B).IsHermitian) : Matrix n n ℝ :=
+  sqrtMat (A - B) hM * (A + B) * sqrtMat (A - B) hM
+
+theorem symProd_isSymm (A B : Matrix n n ℝ) (hA : A.IsSymm) (hB : B.IsSymm)
+    (hM : (A - B).IsHermitian) : (symProd A B hM).IsSymm := by
+  have hS := sqrtMat_isSymm (A - B) hM
+  have hK : (A + B).IsSymm := hA.add hB
+  unfold symProd
+  rw [Matrix.IsSymm, transpose_mul, transpose_mul, hS.eq, hK.eq, Matrix.mul_assoc]
+
+theorem symProd_isHermitian (A B : Matrix n n ℝ) (hA : A.IsSymm) (hB : B.IsSymm)
+    (hM : (A - B).IsHermitian) : (symProd A B hM).IsHermitian :=
+  isHermitian_of_isSymm (symProd_isSymm A B hA hB hM)
+
+theorem symProd_mulVec (A B : Matrix n n ℝ) (hM : (A - B).IsHermitian) (u : n → ℝ) :
+    symProd A B hM *ᵥ u = sqrtMat (A - B) hM *ᵥ ((A + B) *ᵥ (sqrtMat (A - B) hM *ᵥ u)) := by
+  unfold symProd
+  rw [mulVec_mulVec, mulVec_mulVec]
+
+theorem symProd_quad (A B : Matrix n n ℝ) (hM : (A - B).IsHermitian) (u : n → ℝ) :
+    u ⬝ᵥ symProd A B hM *ᵥ u =
+      (sqrtMat (A - B) hM *ᵥ u) ⬝ᵥ (A + B) *ᵥ (sqrtMat (A - B) hM *ᵥ u) := by
+  rw [symProd_mulVec, dot_mulVec_symm _ (sqrtMat_isSymm (A - B) hM)]
+
+/-- eigenvectors of the symmetrised product give RPA eigenvectors `X+Y = (A−B)^{1/2} e`
+    (the code's `XpY = AmB_sqrt @ e_vec_n`) -/
+theorem symProd_eig_to_rpa (A B : Matrix n n ℝ) (hM : (A - B).PosSemidef) (lam : ℝ) (e : n → ℝ)
+    (he : symProd A B hM.1 *ᵥ e = lam • e) :
+    ((A - B) * (A + B)) *ᵥ (sqrtMat (A - B) hM.1 *ᵥ e) =
+      lam • (sqrtMat (A - B) hM.1 *ᵥ e) := by
+  rw [← mulVec_mulVec, ← sqrtMat_mulVec_mulVec (A - B) hM, ← symProd_mulVec, he, mulVec_smul]
+
+/-- and conversely every RPA eigenvector comes from one of the symmetrised product -/
+theorem rpa_eig_to_symProd (A B : Matrix n n ℝ) (hM : (A - B).PosDef) (mu : ℝ) (e : n → ℝ)
+    (hz : ((A - B) * (A + B)) *ᵥ (sqrtMat (A - B) hM.1 *ᵥ e) =
+      mu • (sqrtMat (A - B) hM.1 *ᵥ e)) :
+    symProd A B hM.1 *ᵥ e = mu • e := by
+  apply sqrtMat_injective (A - B) hM
+  show sqrtMat (A - B) hM.1 *ᵥ (symProd A B hM.1 *ᵥ e) = sqrtMat (A - B) hM.1 *ᵥ (mu • e)
+  rw [mulVec_smul, ← hz, symProd_mulVec, sqrtMat_mulVec_mulVec (A - B) hM.posSemidef,
+    mulVec_mulVec]
+
+/-- the symmetrised product has the same characteristic polynomial as `(A−B)(A+B)`: its
+    eigenvalues are ALL the RPA `ω²`, with multiplicity -/
+theorem symProd_charpoly (A B : Matrix n n ℝ) (hM : (A - B).PosSemidef) :
+    (symProd A B hM.1).charpoly = ((A - B) * (A + B)).charpoly := by
+  unfold symProd
+  rw [Matrix.charpoly_mul_comm, ← Matrix.mul_assoc, sqrtMat_mul_self (A - B) hM]
+
+/-- every eigenvalue of the symmetrised product is an RPA eigenvalue -/
+theorem symProd_eigenvalue_isRPAEig (A B : Matrix n n ℝ) (hM : (A - B).PosDef)
+    (hH : (symProd A B hM.1).IsHermitian) (j : n) : IsRPAEig A B (hH.eigenvalues j) :=
+  ⟨sqrtMat (A - B) hM.1 *ᵥ ⇑(hH.eigenvectorBasis j),
+    sqrtMat_mulVec_ne_zero (A - B) hM (eigenbasis_ne_zero hH j),
+    symProd_eig_to_rpa A B hM.posSemidef _ _ (hH.mulVec_eigenvectorBasis j)⟩
+
+/-- the eigenvalues the code takes the square root of (`r_eval = torch.sqrt(r_eval)`) are
+    positive for a stable reference: the `ValueError` branches are unreachable in exact arithmetic -/
+theorem symProd_eigenvalues_pos (A B : Matrix n n ℝ) (hA : A.IsSymm) (hB : B.IsSymm)
+    (hK : (A + B).PosDef) (hM : (A - B).PosDef) (hH : (symProd A B hM.1).IsHermitian) (j : n) :
+    0 < hH.eigenvalues j :=
+  rpa_eigenvalues_positive A B hA hB hK hM _ (symProd_eigenvalue_isRPAEig A B hM hH j)
+
+/-! ### (1) RPA ≤ CIS, lowest root -/
+
+/-- Rayleigh quotient of the symmetrised product at `u = S⁻¹x`, bounded by Cauchy–Schwarz -/
+theorem symProd_rayleigh_bound (A B : Matrix n n ℝ) (hM : (A - B).PosDef)
+    (lam : ℝ) (hlam : 0 ≤ lam)
+    (hmin : ∀ u : n → ℝ, lam * (u ⬝ᵥ u) ≤ u ⬝ᵥ symProd A B hM.1 *ᵥ u) (x : n → ℝ) :
+    lam * (x ⬝ᵥ x) ^ 2 ≤ (x ⬝ᵥ A *ᵥ x) ^ 2 - (x ⬝ᵥ B *ᵥ x) ^ 2 := by
+  obtain ⟨u, hu⟩ := sqrtMat_surjective (A - B) hM x
+  have h1 := hmin u
+  rw [symProd_quad, hu, quad_add] at h1
+  have hcs := sqrt_cauchy (A - B) hM.posSemidef u x hu
+  have hpq := posDef_dot_nonneg hM x
+  rw [quad_sub] at hcs hpq
+  calc lam * (x ⬝ᵥ x) ^ 2
+      ≤ lam * ((u ⬝ᵥ u) * (x ⬝ᵥ A *ᵥ x - x ⬝ᵥ B *ᵥ x)) := mul_le_mul_of_nonneg_left hcs hlam
+    _ = (lam * (u ⬝ᵥ u)) * (x ⬝ᵥ A *ᵥ x - x ⬝ᵥ B *ᵥ x) := by ring
+    _ ≤ (x ⬝ᵥ A *ᵥ x + x ⬝ᵥ B *ᵥ x) * (x ⬝ᵥ A *ᵥ x - x ⬝ᵥ B *ᵥ x) :=
+        mul_le_mul_of_nonneg_right h1 hpq
+    _ = _ := by ring
+
+/-- **C16b (1a)** the lowest RPA root exists, is positive, is the minimum of the RPA spectrum,
+    and obeys the variational bound `ω₁² (xᵀx)² ≤ (xᵀAx)² − (xᵀBx)²` for EVERY vector `x`. -/
+theorem rpa_lowest_variational [Nonempty n] (A B : Matrix n n ℝ) (hA : A.IsSymm) (hB : B.IsSymm)
+    (hK : (A + B).PosDef) (hM : (A - B).PosDef) :
+    ∃ w1 : ℝ, 0 < w1 ∧ IsRPAEig A B (w1 ^ 2) ∧ (∀ mu, IsRPAEig A B mu → w1 ^ 2 ≤ mu) ∧
+      ∀ x : n → ℝ, w1 ^ 2 * (x ⬝ᵥ x) ^ 2 ≤ (x ⬝ᵥ A *ᵥ x) ^ 2 - (x ⬝ᵥ B *ᵥ x) ^ 2 := by
+  obtain ⟨lam, e, he0, he, hmin⟩ :=
+    exists_min_eigenpair (symProd A B hM.1) (symProd_isSymm A B hA hB hM.1)
+  have hrpa : IsRPAEig A B lam :=
+    ⟨_, sqrtMat_mulVec_ne_zero (A - B) hM he0, symProd_eig_to_rpa A B hM.posSemidef lam e he⟩
+  have hlam : 0 < lam := rpa_eigenvalues_positive A B hA hB hK hM lam hrpa
+  have hsq : Real.sqrt lam ^ 2 = lam := Real.sq_sqrt hlam.le
+  refine ⟨Real.sqrt lam, Real.sqrt_pos.mpr hlam, by rwa [hsq], ?_, ?_⟩
+  · rintro mu ⟨w, hw0, hw⟩
+    obtain ⟨e', rfl⟩ := sqrtMat_surjective (A - B) hM w
+    have he' : e' ≠ 0 := by
+      intro h; apply hw0; rw [h, mulVec_zero]
+    have hH := rpa_eig_to_symProd A B hM mu e' hw
+    have h1 := hmin e'
+    rw [hH, dotProduct_smul, smul_eq_mul] at h1
+    rw [hsq]
+    exact le_of_mul_le_mul_right h1 (dot_self_pos he')
+  · intro x
+    rw [hsq]
+    exact symProd_rayleigh_bound A B hM lam hlam.le hmin x
+
+/-- **C16b (1)** *RPA never exceeds CIS, lowest root.*  There is a lowest RPA excitation energy
+    `ω₁ > 0` (`ω₁²` an eigenvalue of `(A−B)(A+B)`, below every other RPA root) such that for EVERY
+    CIS eigenpair `A x = a x`, `xᵀx = 1`:  `ω₁² ≤ a² − (xᵀBx)² ≤ a²` and `ω₁ ≤ a`.  In particular
+    `ω₁(RPA) ≤ a₁(CIS)` for the smallest eigenvalue `a₁` of `A`. -/
+theorem rpa_lowest_le_cis_lowest [Nonempty n] (A B : Matrix n n ℝ) (hA : A.IsSymm)
+    (hB : B.IsSymm) (hK : (A + B).PosDef) (hM : (A - B).PosDef) :
+    ∃ w1 : ℝ, 0 < w1 ∧ IsRPAEig A B (w1 ^ 2) ∧
+      (∀ w : ℝ, 0 < w → IsRPAEig A B (w ^ 2) → w1 ≤ w) ∧
+      ∀ (a : ℝ) (x : n → ℝ), x ⬝ᵥ x = 1 → A *ᵥ x = a • x →
+        w1 ^ 2 ≤ a ^ 2 - (x ⬝ᵥ B *ᵥ x) ^ 2 ∧ a ^ 2 - (x ⬝ᵥ B *ᵥ x) ^ 2 ≤ a ^ 2 ∧ w1 ≤ a := by
+  obtain ⟨w1, hw1, hrpa, hlow, hvar⟩ := rpa_lowest_variational A B hA hB hK hM
+  refine ⟨w1, hw1, hrpa, ?_, ?_⟩
+  · intro w hw hwr
+    have := hlow _ hwr
+    exact (pow_le_pow_iff_left₀ hw1.le hw.le (by norm_num)).mp this
+  · intro a x hx hax
+    have hx0 : x ≠ 0 := by
+      intro h; rw [h, zero_dotProduct] at hx; exact zero_ne_one hx
+    have ha : 0 < a := cis_eigenvalue_pos A B hK hM a ⟨x, hx0, hax⟩
+    have h1 := hvar x
+    rw [hx, hax, dotProduct_smul, hx, smul_eq_mul, mul_one, one_pow, mul_one] at h1
+    have h2 : a ^ 2 - (x ⬝ᵥ B *ᵥ x) ^ 2 ≤ a ^ 2 := by
+      have := sq_nonneg (x ⬝ᵥ B *ᵥ x); linarith
+    exact ⟨h1, h2, (pow_le_pow_iff_left₀ hw1.le ha.le (by norm_num)).mp (h1.trans h2)⟩
+
+/-! ### (1b,c) RPA ≤ CIS, every root -/
+
+/-- if `S u = x ≠ 0` and `xᵀAx ≤ c xᵀx` then `uᵀ(S(A+B)S)u ≤ c² uᵀu` -/
+theorem symProd_quad_le (A B : Matrix n n ℝ) (hK : (A + B).PosDef) (hM : (A - B).PosDef)
+    (c : ℝ) (u x : n → ℝ) (hu : sqrtMat (A - B) hM.1 *ᵥ u = x) (hx : x ≠ 0)
+    (hc : x ⬝ᵥ A *ᵥ x ≤ c * (x ⬝ᵥ x)) :
+    u ⬝ᵥ symProd A B hM.1 *ᵥ u ≤ c ^ 2 * (u ⬝ᵥ u) := by
+  have hcs := sqrt_cauchy (A - B) hM.posSemidef u x hu
+  have hd := posDef_dot_pos hM hx
+  have hp := cis_form_pos A B hK hM hx
+  rw [quad_sub] at hcs hd
+  rw [symProd_quad, hu, quad_add]
+  refine le_of_mul_le_mul_right ?_ hd
+  calc (x ⬝ᵥ A *ᵥ x + x ⬝ᵥ B *ᵥ x) * (x ⬝ᵥ A *ᵥ x - x ⬝ᵥ B *ᵥ x)
+      = (x ⬝ᵥ A *ᵥ x) ^ 2 - (x ⬝ᵥ B *ᵥ x) ^ 2 := by ring
+    _ ≤ (x ⬝ᵥ A *ᵥ x) ^ 2 := by have := sq_nonneg (x ⬝ᵥ B *ᵥ x); linarith
+    _ ≤ (c * (x ⬝ᵥ x)) ^ 2 := pow_le_pow_left₀ hp.le hc 2
+    _ = c ^ 2 * (x ⬝ᵥ x) ^ 2 := by ring
+    _ ≤ c ^ 2 * ((u ⬝ᵥ u) * (x ⬝ᵥ A *ᵥ x - x ⬝ᵥ B *ᵥ x)) :=
+        mul_le_mul_of_nonneg_left hcs (sq_nonneg c)
+    _ = c ^ 2 * (u ⬝ᵥ u) * (x ⬝ᵥ A *ᵥ x - x ⬝ᵥ B *ᵥ x) := by ring
+
+/-- **C16b (1b)** *counting form, all roots*: for every threshold `c` the symmetrised RPA matrix
+    `(A−B)^{1/2}(A+B)(A−B)^{1/2}` has at least as many eigenvalues `ω² ≤ c²` as `A` has
+    eigenvalues `a ≤ c` (with multiplicity). -/
+theorem rpa_count_ge_cis_count (A B : Matrix n n ℝ) (hA : A.IsHermitian)
+    (hK : (A + B).PosDef) (hM : (A - B).PosDef) (hH : (symProd A B hM.1).IsHermitian) (c : ℝ) :
+    Fintype.card {i // hA.eigenvalues i ≤ c} ≤ Fintype.card {j // hH.eigenvalues j ≤ c ^ 2} := by
+  choose u hu using fun i : {i // hA.eigenvalues i ≤ c} =>
+    sqrtMat_surjective (A - B) hM ⇑(hA.eigenvectorBasis i.1)
+  refine card_le_card_eigenvalues_le hH (c ^ 2) u fun α hα => ?_
+  set v := ∑ i, α i • u i with hv
+  set x : n → ℝ := ∑ i, α i • (⇑(hA.eigenvectorBasis i.1) : n → ℝ) with hx
+  have hSv : sqrtMat (A - B) hM.1 *ᵥ v = x := by
+    rw [hv, hx, mulVec_sum]
+    exact Finset.sum_congr rfl fun i _ => by rw [mulVec_smul, hu i]
+  obtain ⟨i0, hi0⟩ := Function.ne_iff.mp hα
+  have hx0 : x ≠ 0 := by
+    intro h0
+    have := eigen_comb_coeff hA c α i0.1
+    rw [← hx, h0, dotProduct_zero, dif_pos i0.2] at this
+    exact hi0 this.symm
+  have hv0 : v ≠ 0 := by
+    intro h0; rw [h0, mulVec_zero] at hSv; exact hx0 hSv.symm
+  have hxc : x ⬝ᵥ A *ᵥ x ≤ c * (x ⬝ᵥ x) := by
+    refine quad_le_of_orth hA c x fun k hk => ?_
+    rw [hx, eigen_comb_coeff hA c α k, dif_neg (not_le.mpr hk)]
+  exact ⟨hv0, symProd_quad_le A B hK hM c v x hSv hx0 hxc⟩
+
+/-- **C16b (1c)** *RPA never exceeds CIS, every root, general dimension.*  With both spectra
+    sorted the same way (Mathlib's `eigenvalues₀` is decreasing), the `k`-th RPA excitation energy
+    `ω_k = √(λ_k((A−B)^{1/2}(A+B)(A−B)^{1/2}))` is at most the `k`-th CIS energy `a_k = λ_k(A)`.
+    (`hH` is `symProd_isHermitian`; by `symProd_charpoly` the `λ_k` are exactly the eigenvalues
+    of `(A−B)(A+B)` with multiplicity.) -/
+theorem rpa_le_cis_all_roots (A B : Matrix n n ℝ) (hA : A.IsHermitian)
+    (hK : (A + B).PosDef) (hM : (A - B).PosDef) (hH : (symProd A B hM.1).IsHermitian)
+    (k : Fin (Fintype.card n)) :
+    Real.sqrt (hH.eigenvalues₀ k) ≤ hA.eigenvalues₀ k := by
+  refine antitone_le_of_count (fun k => Real.sqrt (hH.eigenvalues₀ k)) hA.eigenvalues₀
+    (fun i j hij => Real.sqrt_le_sqrt (hH.eigenvalues₀_antitone hij)) hA.eigenvalues₀_antitone
+    (fun c => ?_) k
+  rcases isEmpty_or_nonempty {k // hA.eigenvalues₀ k ≤ c} with he | ⟨⟨k0, hk0⟩⟩
+  · rw [Fintype.card_eq_zero]; exact Nat.zero_le _
+  · have hpos : 0 < hA.eigenvalues₀ k0 := by
+      have h1 : IsCISEig A (hA.eigenvalues (Fintype.equivOfCardEq (Fintype.card_fin _) k0)) :=
+        ⟨_, eigenbasis_ne_zero hA _, hA.mulVec_eigenvectorBasis _⟩
+      have h2 := cis_eigenvalue_pos A B hK hM _ h1
+      unfold Matrix.IsHermitian.eigenvalues at h2
+      rwa [Equiv.symm_apply_apply] at h2
+    have hc : 0 ≤ c := (hpos.trans_le hk0).le
+    calc Fintype.card {k // hA.eigenvalues₀ k ≤ c}
+        = Fintype.card {i // hA.eigenvalues i ≤ c} := card_eigenvalues₀_le hA c
+      _ ≤ Fintype.card {j // hH.eigenvalues j ≤ c ^ 2} :=
+          rpa_count_ge_cis_count A B hA hK hM hH c
+      _ = Fintype.card {k // hH.eigenvalues₀ k ≤ c ^ 2} := (card_eigenvalues₀_le hH (c ^ 2)).symm
+      _ ≤ Fintype.card {k // Real.sqrt (hH.eigenvalues₀ k) ≤ c} :=
+          Fintype.card_subtype_mono _ _ fun k hk => Real.sqrt_le_iff.mpr ⟨hc, hk⟩
+
+/-! ### the amplitudes reconstructed by `rpa_subspace_eig` -/
+
+/-- **C16b (4f)** *what `rpa_subspace_eig` returns is a solution.*  For an eigenpair
+    `H e = ω² e` of the symmetrised product (`ω ≠ 0`), the code's `XpY = S e`,
+    `XmY = (A+B) XpY / ω`, `X = XpY + XmY`, `Y = XpY − XmY` solve the coupled equations, and the
+    normalisation radicand is `X·X − Y·Y = 4 XpYᵀ(A+B)XpY / ω`. -/
+theorem rpa_code_amplitudes (A B : Matrix n n ℝ) (hM : (A - B).PosSemidef) (w : ℝ) (hw : w ≠ 0)
+    (e : n → ℝ) (he : symProd A B hM.1 *ᵥ e = w ^ 2 • e) :
+    let XpY := sqrtMat (A - B) hM.1 *ᵥ e
+    let XmY := w⁻¹ • ((A + B) *ᵥ XpY)
+    IsRPAPair A B w (XpY + XmY) (XpY - XmY) ∧
+      (XpY + XmY) ⬝ᵥ (XpY + XmY) - (XpY - XmY) ⬝ᵥ (XpY - XmY) =
+        4 * w⁻¹ * (XpY ⬝ᵥ (A + B) *ᵥ XpY) := by
+  intro XpY XmY
+  have hrpa := symProd_eig_to_rpa A B hM _ e he
+  have h1 : (A + B) *ᵥ XpY = w • XmY := by
+    show _ = w • (w⁻¹ • _)
+    rw [smul_smul, mul_inv_cancel₀ hw, one_smul]
+  have h2 : (A - B) *ᵥ XmY = w • XpY := by
+    show (A - B) *ᵥ (w⁻¹ • ((A + B) *ᵥ XpY)) = w • XpY
+    rw [mulVec_smul, mulVec_mulVec, hrpa, smul_smul]
+    congr 1
+    field_simp
+  refine ⟨rpa_pair_of_sum_diff A B w XpY XmY h1 h2, ?_⟩
+  rw [norm_eq_sum_dot_diff]
+  have e1 : XpY + XmY + (XpY - XmY) = (2 : ℝ) • XpY := by rw [two_smul]; abel
+  have e2 : XpY + XmY - (XpY - XmY) = (2 : ℝ) • XmY := by rw [two_smul]; abel
+  rw [e1, e2, smul_dotProduct, dotProduct_smul]
+  show (2 : ℝ) • (2 : ℝ) • (XpY ⬝ᵥ (w⁻¹ • ((A + B) *ᵥ XpY))) = _
+  rw [dotProduct_smul]
+  simp only [smul_eq_mul]
+  ring
+
+end spectral
+
+/-! ## non-vacuity and concrete sanity checks (2×2) -/
+section examples
+
+/-- Sylvester's criterion for a real symmetric `2×2` matrix -/
+theorem posDef_two (a b d : ℝ) (ha : 0 < a) (hdet : 0 < a * d - b ^ 2) :
+    (!![a, b; b, d] : Matrix (Fin 2) (Fin 2) ℝ).PosDef := by
+  refine Matrix.PosDef.of_dotProduct_mulVec_pos ?_ fun x hx => ?_
+  · rw [Matrix.IsHermitian, Matrix.conjTranspose_eq_transpose_of_trivial]
+    ext i j; fin_cases i <;> fin_cases j <;> rfl
+  · rw [star_trivial]
+    simp only [dotProduct, mulVec, Fin.sum_univ_two, Matrix.of_apply, Matrix.cons_val',
+      Matrix.cons_val_zero, Matrix.cons_val_one, Matrix.cons_val_fin_one]
+    have hxy : x 0 ≠ 0 ∨ x 1 ≠ 0 := by
+      by_contra hcon
+      push Not at hcon
+      apply hx; funext i; fin_cases i
+      · exact hcon.1
+      · exact hcon.2
+    have key : 0 < a * (x 0 * (a * x 0 + b * x 1) + x 1 * (b * x 0 + d * x 1)) := by
+      have e : a * (x 0 * (a * x 0 + b * x 1) + x 1 * (b * x 0 + d * x 1)) =
+          (a * x 0 + b * x 1) ^ 2 + (a * d - b ^ 2) * x 1 ^ 2 := by ring
+      rw [e]
+      by_cases h1 : x 1 = 0
+      · have h0 : x 0 ≠ 0 := hxy.resolve_right (not_not.mpr h1)
+        rw [h1]
+        have : 0 < (a * x 0) ^ 2 := by positivity
+        simpa using this
+      · have : 0 < (a * d - b ^ 2) * x 1 ^ 2 := by positivity
+        have := sq_nonneg (a * x 0 + b * x 1)
+        linarith
+    exact (mul_pos_iff_of_pos_left ha).mp key
+
+/-- example data: `A = diag(2,3)` (CIS energies 2, 3), `B` couples the two excitations -/
+def exA : Matrix (Fin 2) (Fin 2) ℝ := !![2, 0; 0, 3]
+/-- see `exA` -/
+def exB : Matrix (Fin 2) (Fin 2) ℝ := !![0, 1; 1, 0]
+
+theorem exA_symm : exA.IsSymm := by
+  ext i j; fin_cases i <;> fin_cases j <;> rfl
+theorem exB_symm : exB.IsSymm := by
+  ext i j; fin_cases i <;> fin_cases j <;> rfl
+
+theorem ex_sum : exA + exB = !![2, 1; 1, 3] := by
+  ext i j; fin_cases i <;> fin_cases j <;> simp [exA, exB]
+theorem ex_diff : exA - exB = !![2, -1; -1, 3] := by
+  ext i j; fin_cases i <;> fin_cases j <;> simp [exA, exB]
+
+theorem ex_sum_posDef : (exA + exB).PosDef := by
+  rw [ex_sum]; exact posDef_two 2 1 3 (by norm_num) (by norm_num)
+theorem ex_diff_posDef : (exA - exB).PosDef := by
+  rw [ex_diff]; exact posDef_two 2 (-1) 3 (by norm_num) (by norm_num)
+
+/-- non-vacuity of the hypotheses of `rpa_lowest_le_cis_lowest` / `rpa_le_cis_all_roots` /
+    `rpa_eigenvalues_positive`: a stable pair with `B ≠ 0` not commuting with `A`, and a unit CIS
+    eigenvector -/
+example : exA.IsSymm ∧ exB.IsSymm ∧ (exA + exB).PosDef ∧ (exA - exB).PosDef ∧ exB ≠ 0 ∧
+    exA * exB ≠ exB * exA ∧
+    (![1, 0] : Fin 2 → ℝ) ⬝ᵥ ![1, 0] = 1 ∧ exA *ᵥ ![1, 0] = (2 : ℝ) • ![1, 0] := by
+  refine ⟨exA_symm, exB_symm, ex_sum_posDef, ex_diff_posDef, ?_, ?_, ?_, ?_⟩
+  · intro h
+    have := congrFun (congrFun h 0) 1
+    simp [exB] at this
+  · intro h
+    have := congrFun (congrFun h 0) 1
+    simp [exA, exB] at this
+  · simp [dotProduct, Fin.sum_univ_two]
+  · funext i; fin_cases i <;> simp [exA, mulVec, dotProduct, Fin.sum_univ_two]
+
+/-- the theorem applied: this system has an RPA root `ω₁ ≤ 2 =` lowest CIS energy
+    (numerically `ω₁² = (11 − √21)/2 ≈ 3.21 < 4`) -/
+example : ∃ w1 : ℝ, 0 < w1 ∧ IsRPAEig exA exB (w1 ^ 2) ∧ w1 ≤ 2 := by
+  obtain ⟨w1, h0, h1, -, h3⟩ :=
+    rpa_lowest_le_cis_lowest exA exB exA_symm exB_symm ex_sum_posDef ex_diff_posDef
+  refine ⟨w1, h0, h1, (h3 2 ![1, 0] ?_ ?_).2.2⟩
+  · simp [dotProduct, Fin.sum_univ_two]
+  · funext i; fin_cases i <;> simp [exA, mulVec, dotProduct, Fin.sum_univ_two]
+
+/-- all roots for the example: both sorted RPA energies are below the sorted CIS energies -/
+example (k : Fin (Fintype.card (Fin 2))) :
+    Real.sqrt ((symProd_isHermitian exA exB exA_symm exB_symm ex_diff_posDef.1).eigenvalues₀ k) ≤
+      (isHermitian_of_isSymm exA_symm).eigenvalues₀ k :=
+  rpa_le_cis_all_roots exA exB _ ex_sum_posDef ex_diff_posDef _ k
+
+/-- fully explicit instance in the style of `C16.rpa_le_cis_2x2`: `A = 5·1`, `B = [[0,3],[3,0]]`
+    gives `(A−B)(A+B) = 16·1`, so `ω = 4 ≤ 5` -/
+example : IsRPAEig (!![5, 0; 0, 5] : Matrix (Fin 2) (Fin 2) ℝ) !![0, 3; 3, 0] (4 ^ 2) ∧
+    IsCISEig (!![5, 0; 0, 5] : Matrix (Fin 2) (Fin 2) ℝ) 5 ∧ (4 : ℝ) ≤ 5 := by
+  refine ⟨⟨![1, 0], ?_, ?_⟩, ⟨![1, 0], ?_, ?_⟩, by norm_num⟩
+  · intro h; have := congrFun h 0; simp at this
+  · funext i; fin_cases i <;>
+      simp [Matrix.mul_apply, mulVec, dotProduct, Fin.sum_univ_two] <;> norm_num
+  · intro h; have := congrFun h 0; simp at this
+  · funext i; fin_cases i <;> simp [mulVec, dotProduct, Fin.sum_univ_two]
+
+/-- a concrete solution of the coupled equations whose `X`-only flip is NOT a solution
+    (`n = 1`, `A = 5`, `B = 3`, `ω = 4`, `(X, Y) = (3, −1)`): the seeded defect is detectable
+    by the residual although `X·X − Y·Y` is unchanged -/
+example : IsRPAPair (!![5] : Matrix (Fin 1) (Fin 1) ℝ) !![3] 4 ![3] ![-1] ∧
+    ¬ IsRPAPair (!![5] : Matrix (Fin 1) (Fin 1) ℝ) !![3] 4 (-![3]) ![-1] := by
+  constructor
+  · constructor <;> funext i <;> fin_cases i <;> simp <;> norm_num
+  · rintro ⟨h, -⟩
+    have := congrFun h 0
+    simp at this
+    norm_num at this
+
+end examples
 
 end C16b
